@@ -28,6 +28,7 @@ type c12Env struct {
 	Env     EnvCfg `json:"env"`
 	Stream  bool   `json:"stream"`
 	Cut     int    `json:"cut,omitempty"`
+	EnvChoices
 }
 
 // c12Prefix: a header truncated to cut bytes must be rejected by both readers.
@@ -70,6 +71,7 @@ func c12Envelope(c *mc.Ctx, k c12Env, withStream bool) {
 	}
 	want := ref.MessageBegin(nil, name, k.Type, k.Seq)
 	bad := func(class, format string, a ...interface{}) {
+		k.EnvChoices = currentEnvChoices()
 		c.Violate("envelope", "C12|envelope|"+class, fmt.Sprintf("message header name=%d bytes type=%d seq=%d [%s]: ", len(name), k.Type, k.Seq, k.Env)+fmt.Sprintf(format, a...), k)
 	}
 	pi := mc.Try(func() {
@@ -114,6 +116,29 @@ func c12Envelope(c *mc.Ctx, k c12Env, withStream bool) {
 		if !bytes.Equal(sink.Got, want) {
 			bad("bufwrite", "BufferWriter.WriteMessageBegin delivered %s, want %s", mc.Hex(sink.Got), mc.Hex(want))
 			return
+		}
+		// two flush cycles through ONE bytes-backed writer over a small caller buffer, with different headers
+		{
+			target := make([]byte, 0, 16)
+			yw := bufiox.NewBytesWriter(&target)
+			bw2 := thrift.NewBufferWriter(yw)
+			// cycle 1: eight bytes that fit the caller's buffer, then a header that outgrows it
+			first := append([]byte{0x11, 0x12, 0x13, 0x14, 0x21, 0x22, 0x23, 0x24}, ref.MessageBegin(nil, "first-"+name, 1, 1)...)
+			bw2.WriteI32(0x11121314)
+			bw2.WriteI32(0x21222324)
+			bw2.WriteMessageBegin("first-"+name, 1, 1)
+			yw.Flush()
+			if !bytes.Equal(target, first) {
+				bad("bufwrite-bytes-writer", "BufferWriter over a bytes writer (cycle 1) produced %s, want %s", mc.Hex(target), mc.Hex(first))
+				return
+			}
+			bw2.WriteMessageBegin(name, k.Type, k.Seq)
+			yw.Flush()
+			bw2.Recycle()
+			if !bytes.Equal(target, want) && !bytes.Equal(target, append(append([]byte{}, first...), want...)) {
+				bad("bufwrite-bytes-writer-second-cycle", "the second header written through the same bytes writer after a Flush came out as %s, want %s", mc.Hex(target), mc.Hex(want))
+				return
+			}
 		}
 		in := append(append([]byte{}, want...), 0x7e)
 		gn, gt, gs, l, err := B.ReadMessageBegin(in)
@@ -441,7 +466,7 @@ func init() {
 			setAllocCap(256 << 20)
 			switch sub {
 			case "envelope":
-				replayAs(raw, func(k c12Env) { c12Envelope(c, k, true) })
+				replayAs(raw, func(k c12Env) { withEnvChoices(k.EnvChoices, func() { c12Envelope(c, k, true) }) })
 			case "prefix":
 				replayAs(raw, func(k c12Env) {
 					if pi := mc.Try(func() { c12Prefix(c, k.NameLen, k.Cut) }); pi != nil {
